@@ -290,6 +290,47 @@ def recoverLoop (findStart tok : IS → Out LoopRes) : Nat → IS → Byte → N
   | 0 => fun _ _ _ => .outOfFuel
   | fuel + 1 => recoverStep (recoverLoop findStart tok fuel) findStart tok
 
+/-! ### STEPfile::FindDataSection -/
+
+/-- after a `D`: `peek 'A'; get; peek 'T'; get; peek 'A'; get; in >> ws; peek ';'; get` — the stream and "found" -/
+def matchDATA (s : IS) : IS × Bool :=
+  if (s.peek).2 = some 65 then
+    if ((s.peek).1.get.1.peek).2 = some 84 then
+      if (((s.peek).1.get.1.peek).1.get.1.peek).2 = some 65 then
+        if ((((s.peek).1.get.1.peek).1.get.1.peek).1.get.1.ws.peek).2 = some 59 then
+          (((((s.peek).1.get.1.peek).1.get.1.peek).1.get.1.ws.peek).1.get.1, true)
+        else (((((s.peek).1.get.1.peek).1.get.1.peek).1.get.1.ws.peek).1, false)
+      else ((((s.peek).1.get.1.peek).1.get.1.peek).1, false)
+    else (((s.peek).1.get.1.peek).1, false)
+  else ((s.peek).1, false)
+
+/-- one iteration of `while( in.good() )` in `FindDataSection`; `sev` = 1: `DATA;` found -/
+def dataSecStep (rec : IS → Nat → Out LoopRes) (comment : IS → Out LoopRes) (s : IS) (steps : Nat) : Out LoopRes :=
+  if !s.good then .ok ⟨s, 0, 0, steps⟩ else
+  match s.extract with
+  | (s1, none) => .ok ⟨s1, 0, 0, steps + 1⟩          -- `in >> c` hit the end: `in.eof()` → return 0
+  | (s1, some c) =>
+    if c = 68 then
+      match matchDATA s1 with
+      | (s2, true) => .ok ⟨s2, 1, 0, steps + 1⟩
+      | (s2, false) => rec s2 (steps + 1)
+    else if c = chQuote then rec (sdaiStringRead (s1.putback c)).1 (steps + 1 + (sdaiStringRead (s1.putback c)).2.length)
+    else if c = chSlash then
+      match comment (s1.putback c) with
+      | .ok r => rec r.s (steps + 1 + r.steps)
+      | .overflow i k => .overflow i k
+      | .outOfFuel => .outOfFuel
+    else if c = 0 then .ok ⟨s1, 0, 0, steps + 1⟩
+    else rec s1 (steps + 1)
+
+def dataSecLoop (comment : IS → Out LoopRes) : Nat → IS → Nat → Out LoopRes
+  | 0 => fun _ _ => .outOfFuel
+  | fuel + 1 => dataSecStep (dataSecLoop comment fuel) comment
+
+/-- `FindDataSection` -/
+def findDataSection (cm : Bool) (iters fuel : Nat) (s : IS) : Out LoopRes :=
+  dataSecLoop (readComment cm iters fuel) fuel s 0
+
 /-- `strchr( "CIND", c )` — the terminating NUL of the literal matches `c == 0` too -/
 def isStateLetter (c : Byte) : Bool := c = 67 || c = 73 || c = 78 || c = 68 || c = 0
 
